@@ -410,7 +410,7 @@ fn extra_programs() -> Vec<ArgCase> {
     }
     out.extend(multi_element_programs());
     // a STATIC subprogram that calls itself: its variables are shared by the activations, its parameters are not
-    for variant in 0..5 {
+    for variant in 0..7 {
         for depth in 1..=3 {
             let mut b = B::new();
             let p_int = |n: &str| Param { name: n.into(), ty: None, is_array: false };
@@ -470,6 +470,27 @@ fn extra_programs() -> Vec<ArgCase> {
                     main.push(b.print(vec![var("X%")]));
                     main.push(b.s(K::Call("Walk".into(), vec![num(1)])));
                     if variant == 3 { "two self-calls per activation, by-reference argument from the module" } else { "two self-calls per activation, the second with a variable of the subprogram by reference" }
+                }
+                5 => {
+                    // a STATIC FUNCTION that assigns its name only on some calls: the other calls return 0
+                    let then = vec![b.assign(var("Pick%"), num(42))];
+                    let body = vec![b.assign(var("Calls%"), bin(BinOp::Add, var("Calls%"), num(1))), b.s(K::If { arms: vec![(bin(BinOp::Eq, var("N%"), num(depth)), then)], els: None, single_line: false })];
+                    let id = b.id();
+                    subs.push(SubDef { id, name: "Pick%".into(), is_function: true, params: vec![p_int("N%")], body, is_static: true });
+                    main.push(b.print(vec![call("Pick%", vec![num(depth)])]));
+                    main.push(b.print(vec![call("Pick%", vec![num(0)])]));
+                    main.push(b.print(vec![call("Pick%", vec![num(depth)]), call("Pick%", vec![num(9)])]));
+                    "FUNCTION that assigns its name only on some calls"
+                }
+                6 => {
+                    // a STATIC FUNCTION that assigns its name BEFORE it calls itself: the inner result must not replace it
+                    let inner = vec![b.assign(var("D%"), call("Own%", vec![bin(BinOp::Sub, var("N%"), num(1))])), b.print(vec![st("inner"), var("D%")])];
+                    let body = vec![b.assign(var("Own%"), bin(BinOp::Mul, var("N%"), num(10))), b.s(K::If { arms: vec![(bin(BinOp::Gt, var("N%"), num(0)), inner)], els: None, single_line: false })];
+                    let id = b.id();
+                    subs.push(SubDef { id, name: "Own%".into(), is_function: true, params: vec![p_int("N%")], body, is_static: true });
+                    main.push(b.print(vec![call("Own%", vec![num(depth)])]));
+                    main.push(b.print(vec![call("Own%", vec![num(0)])]));
+                    "FUNCTION that assigns its name before it calls itself"
                 }
                 _ => {
                     // FUNCTION Fact& (N%) STATIC: the parameter is used after the recursive call returned
